@@ -640,6 +640,52 @@ where
     }
 }
 
+#[cfg(all(futures_intrusive_verif, feature = "alloc"))]
+impl<MutexType: RawMutex, T, A> GenericChannel<MutexType, T, A>
+where
+    A: RingBuf<Item = T>,
+{
+    /// Read-only snapshot of the internal state for the verification harness
+    pub fn verif_snapshot(
+        &self,
+        is_live: crate::verif::IsLive<'_>,
+    ) -> crate::verif::Snapshot {
+        let state = self.inner.lock();
+        let mut snap = crate::verif::Snapshot::default();
+        snap.scalars.push(("is_closed", state.is_closed as u64));
+        snap.scalars.push(("buffer_len", state.buffer.len() as u64));
+        snap.scalars
+            .push(("buffer_capacity", state.buffer.capacity() as u64));
+        snap.queues.push(crate::verif::snap_list(
+            "receive_waiters",
+            &state.receive_waiters,
+            &mut *is_live,
+            &|e: &RecvWaitQueueEntry| {
+                let code = match e.state {
+                    RecvPollState::Unregistered => 0,
+                    RecvPollState::Registered => 1,
+                    RecvPollState::Notified => 2,
+                };
+                (code, e.task.is_some(), 0)
+            },
+        ));
+        snap.queues.push(crate::verif::snap_list(
+            "send_waiters",
+            &state.send_waiters,
+            &mut *is_live,
+            &|e: &SendWaitQueueEntry<T>| {
+                let code = match e.state {
+                    SendPollState::Unregistered => 0,
+                    SendPollState::Registered => 1,
+                    SendPollState::SendComplete => 2,
+                };
+                (code, e.task.is_some(), e.value.is_some() as u64)
+            },
+        ));
+        snap
+    }
+}
+
 // Export a non thread-safe version using NoopLock
 
 /// A [`GenericChannel`] implementation which is not thread-safe.
@@ -804,6 +850,8 @@ mod if_alloc {
             A: RingBuf<Item = T>,
         {
             fn clone(&self) -> Self {
+                #[cfg(futures_intrusive_verif)]
+                crate::verif::sched_point("mpmc::handle_count_add");
                 let old_size =
                     self.inner.senders.fetch_add(1, Ordering::Relaxed);
                 if old_size > (core::isize::MAX) as usize {
@@ -821,10 +869,14 @@ mod if_alloc {
             A: RingBuf<Item = T>,
         {
             fn drop(&mut self) {
+                #[cfg(futures_intrusive_verif)]
+                crate::verif::sched_point("mpmc::handle_count_sub");
                 if self.inner.senders.fetch_sub(1, Ordering::Release) != 1 {
                     return;
                 }
                 core::sync::atomic::fence(Ordering::Acquire);
+                #[cfg(futures_intrusive_verif)]
+                crate::verif::sched_point("mpmc::last_handle_before_close");
                 // Close the channel, before last sender gets destroyed
                 // TODO: We could potentially avoid this, if no receiver is left
                 self.inner.channel.close();
@@ -837,6 +889,8 @@ mod if_alloc {
             A: RingBuf<Item = T>,
         {
             fn clone(&self) -> Self {
+                #[cfg(futures_intrusive_verif)]
+                crate::verif::sched_point("mpmc::handle_count_add");
                 let old_size =
                     self.inner.receivers.fetch_add(1, Ordering::Relaxed);
                 if old_size > (core::isize::MAX) as usize {
@@ -854,10 +908,14 @@ mod if_alloc {
             A: RingBuf<Item = T>,
         {
             fn drop(&mut self) {
+                #[cfg(futures_intrusive_verif)]
+                crate::verif::sched_point("mpmc::handle_count_sub");
                 if self.inner.receivers.fetch_sub(1, Ordering::Release) != 1 {
                     return;
                 }
                 core::sync::atomic::fence(Ordering::Acquire);
+                #[cfg(futures_intrusive_verif)]
+                crate::verif::sched_point("mpmc::last_handle_before_close");
                 // Close the channel, before last receiver gets destroyed
                 // TODO: We could potentially avoid this, if no sender is left
                 self.inner.channel.close();
@@ -1067,6 +1125,70 @@ mod if_alloc {
         {
             fn is_terminated(&self) -> bool {
                 self.is_terminated
+            }
+        }
+
+        /// A handle for the verification harness which can take snapshots of
+        /// the shared state without counting as a sender or receiver.
+        #[cfg(futures_intrusive_verif)]
+        pub struct VerifChannelObserver<MutexType, T, A>
+        where
+            MutexType: RawMutex,
+            A: RingBuf<Item = T>,
+            T: 'static,
+        {
+            inner: alloc::sync::Arc<GenericChannelSharedState<MutexType, T, A>>,
+        }
+
+        #[cfg(futures_intrusive_verif)]
+        impl<MutexType, T, A> core::fmt::Debug
+            for VerifChannelObserver<MutexType, T, A>
+        where
+            MutexType: RawMutex,
+            A: RingBuf<Item = T>,
+        {
+            fn fmt(&self, f: &mut core::fmt::Formatter) -> core::fmt::Result {
+                f.debug_struct("VerifChannelObserver").finish()
+            }
+        }
+
+        #[cfg(futures_intrusive_verif)]
+        impl<MutexType, T, A> VerifChannelObserver<MutexType, T, A>
+        where
+            MutexType: RawMutex,
+            A: RingBuf<Item = T>,
+        {
+            /// Read-only snapshot of the internal state
+            pub fn verif_snapshot(
+                &self,
+                is_live: crate::verif::IsLive<'_>,
+            ) -> crate::verif::Snapshot {
+                let mut snap = self.inner.channel.verif_snapshot(is_live);
+                snap.scalars.push((
+                    "senders",
+                    self.inner.senders.load(Ordering::SeqCst) as u64,
+                ));
+                snap.scalars.push((
+                    "receivers",
+                    self.inner.receivers.load(Ordering::SeqCst) as u64,
+                ));
+                snap
+            }
+        }
+
+        #[cfg(futures_intrusive_verif)]
+        impl<MutexType, T, A> GenericSender<MutexType, T, A>
+        where
+            MutexType: RawMutex,
+            A: RingBuf<Item = T>,
+        {
+            /// Returns an observer for the verification harness
+            pub fn verif_observer(
+                &self,
+            ) -> VerifChannelObserver<MutexType, T, A> {
+                VerifChannelObserver {
+                    inner: self.inner.clone(),
+                }
             }
         }
 
